@@ -225,13 +225,17 @@ func (s *sentinelErr) Error() string { return fmt.Sprintf("sentinel error of nod
 // ExecNode is the fixed-pool command type that implements Commander. Its fields are unexported so that
 // go-flags does not scan them.
 type ExecNode struct {
-	id  int
-	log *CallLog
-	ret error
+	id    int
+	log   *CallLog
+	ret   error
+	after func() // what the command does besides being logged (e.g. it parses another line with the same parser)
 }
 
 func (e *ExecNode) Execute(args []string) error {
 	e.log.add("execute", e.id, args)
+	if e.after != nil {
+		e.after()
+	}
 	return e.ret
 }
 
@@ -310,7 +314,8 @@ func (o *Opt) Tag() string {
 		tagKV(&sb, "ini-name", o.IniName)
 	}
 	if o.NoIni {
-		tagKV(&sb, "no-ini", "true")
+		// (any non-empty text marks the option - also one that reads like "off")
+		tagKV(&sb, "no-ini", []string{"true", "true", "yes", "false", "no", "0", "1"}[o.ID%7])
 	}
 	return sb.String()
 }
